@@ -1,7 +1,7 @@
 """C16 function level: the functions translated to AllocLang, run in libyara.a (harness/h_alloc.c `fn ...`) and in the
 extracted model (`alloc ...`) on the same input with the same failing index: return classes per call, live-allocation
 count before and after destroy, and number of allocations requested must agree."""
-import re
+import re, os, shutil, tempfile, time
 import vlib, build, c16
 from vlib import hx
 
@@ -88,10 +88,39 @@ def parse(line, fn):
     return {"ops": ops, "n": n, "live": int(m.group(3)), "after": int(m.group(4)), "count": int(m.group(5))}
 
 
+def private_model():
+    """Extracts Model/AllocLang.v on its own into a scratch directory and builds a runner from ocaml/prelude.ml +
+    ocaml/cmds/60_alloc.ml + ocaml/main.ml: independent of the state of the other models' extraction parts."""
+    import subprocess
+    d = tempfile.mkdtemp(prefix="verif-c16.", dir=build.scratch_root())
+    names = []
+    for line in open(os.path.join(vlib.COQ, "Extract", "parts", "60_alloc.txt")):
+        if line.startswith("names:"):
+            names += line[6:].split()
+    open(os.path.join(d, "X.v"), "w").write("Require Extraction.\nRequire Import ExtrOcamlBasic ZArith NArith.\nFrom YV Require Import Model.AllocLang.\n"
+                                            "Extraction \"model.ml\" Z.add N.add %s.\n" % " ".join(names))   # Z, N: types the prelude mentions
+    lock = vlib.coq_lock()
+    try:
+        p = subprocess.run(["coqc", "-R", vlib.COQ, "YV", "-w", "-all", "X.v"], cwd=d, stdout=subprocess.PIPE, stderr=subprocess.STDOUT, text=True, timeout=300)
+    finally:
+        lock.close()
+    if p.returncode != 0:
+        raise vlib.CoqError("extraction of Model/AllocLang.v failed: " + p.stdout[-1500:])
+    od = os.path.join(vlib.VERIF, "ocaml")
+    drv = "open Model\n" + "\n".join(open(f).read() for f in (os.path.join(od, "prelude.ml"), os.path.join(od, "cmds", "60_alloc.ml"),
+                                                               os.path.join(od, "main.ml")))
+    open(os.path.join(d, "driver.ml"), "w").write(drv)
+    p = subprocess.run(["ocamlfind", "ocamlopt", "-inline", "50", "-w", "-a", "-o", "model_runner", "model.mli", "model.ml", "driver.ml"],
+                       cwd=d, stdout=subprocess.PIPE, stderr=subprocess.STDOUT, text=True, timeout=300)
+    if p.returncode != 0:
+        raise vlib.CoqError("ocaml build of the AllocLang runner failed: " + p.stdout[-1500:])
+    return os.path.join(d, "model_runner"), d
+
+
 def function_level(chk):
     rng = chk.rng.fork()
     h = build.harness("h_alloc", "asan", extra_flags=c16.WRAP)
-    model = vlib.build_model()
+    model, model_dir = private_model()
     inputs = gen_inputs(rng, chk.tier)
     # baseline to learn the allocation count of each input, then every k (and the sticky variant)
     def c_case(inp, k, sticky):
@@ -120,6 +149,7 @@ def function_level(chk):
                 meta.append((cid, inp, k, sticky))
     out, err = vlib.run_cases(h, cases, timeout=1200)
     mout, merr = vlib.run_lines(model, mlines, timeout=600)
+    shutil.rmtree(model_dir, ignore_errors=True)
     agree = 0
     distinct = set()
     for (cid, inp, k, sticky), ml in zip(meta, mout):
